@@ -16,8 +16,9 @@ about (log text, error wording, performance). Survivors are triaged by hand (DES
 """
 import json, os, re, subprocess, sys, time, random, hashlib, shutil, threading, queue
 
-REPO = '/repo'
 BASE = '/var/tmp/automut'
+# a pristine export of /repo's HEAD (tools/seeded.sh may have a patch applied to the working tree while the sweep runs)
+REPO = BASE + '/base'
 RESULTS = '/verif/tools/automut_results.json'
 
 # file -> (harness crate, checks in the order they are tried)
@@ -141,7 +142,7 @@ class Worker:
     def setup(self):
         shutil.rmtree(self.dir, ignore_errors=True)
         os.makedirs(self.out + '/target', exist_ok=True)
-        sh(f'rsync -a --exclude target --exclude .git {REPO}/ {self.repo}/')
+        sh(f'rsync -a {REPO}/ {self.repo}/')
         sh(f'rsync -a --exclude target /verif/harness/ {self.harness}/')
         # reuse the compiled third-party dependencies (path crates are rebuilt: their fingerprints carry the path)
         sh(f'mkdir -p {self.target} && rsync -a --exclude tmp --exclude c12 --exclude "*.log" /verif/target/release {self.target}/')
@@ -220,6 +221,10 @@ def main():
     args = sys.argv[2:]
     def opt(name, default):
         return args[args.index(name) + 1] if name in args else default
+    shutil.rmtree(BASE, ignore_errors=True)
+    os.makedirs(REPO, exist_ok=True)
+    rc, o = sh(f'git -C /repo archive HEAD | tar -x -C {REPO}')
+    assert rc == 0, o
     workers = int(opt('--workers', 3)); per_file = int(opt('--per-file', 30)); seed = int(opt('--seed', 1))
     only = opt('--files', '')
     files = dict(FILES)
